@@ -15,7 +15,10 @@ CHECKS = {
              "operators (spec/XcmCore.tla) are bound to the code: TLC-emitted paths and seeded random scripts are executed by "
              "harness/conn_exec against the real library (tcp, ux, uxf) under a link-time shim that cuts/refuses send/recv at the "
              "scripted byte, and every recorded execution is validated by TLC against spec/XcmTrace.tla (expected return values, "
-             "message index/length/truncation, content flag).",
+             "message index/length/truncation, content flag). Underneath: spec/Mbuf.tla (libxcm/tp/common/mbuf.h, the frame buffer and "
+             "wire encoding, as a step function; RoundTrip, Parse - a frame fed in any split is complete exactly at its last byte -, "
+             "Reject, Bounds, Progress; three broken variants refuted) replayed call by call on the real header at the real limits "
+             "(spec/MbufTrace.tla).",
         ref="5/C01", tech="TLA+ model checking (TLC) + trace validation of shim-driven executions"),
     "C02": dict(
         text="spec/Xcm.tla with TP=btcp: C02_Prefix, C02_Range checked exhaustively in small scopes; replay paths and random scripts "
@@ -71,7 +74,9 @@ CHECKS = {
         text="spec/Xcm.tla hostile configuration (raw peer writing frames with header values 0, legal, max+1, huge, truncated, in any "
              "fragmentation): C07_WellFormedPrefix, C07_Eproto, C07_IllegalIsEproto, C07_Bounds; the same behaviours and random "
              "hostile streams are written by a raw TCP socket to real tcp connections (ASan/UBSan build; a sanitizer report or "
-             "abort is a trace event no action accepts) and validated against XcmTrace.",
+             "abort is a trace event no action accepts) and validated against XcmTrace. Underneath: spec/Mbuf.tla against the real "
+             "mbuf.h (a header is valid only for 1..65535 whatever its bytes; hostile length fields fed in every split; "
+             "spec/MbufTrace.tla).",
         ref="5/C07", tech="TLA+ model checking (TLC) + trace validation with a raw hostile peer"),
     "C16": dict(
         text="C16_Quiet, C16_Immediate, C04_NoLostWakeup on spec/Xcm.tla for all awaited conditions; on the real code after every step "
